@@ -14,7 +14,8 @@ RULE = ("un-canted generated shots: any shipped/custom table, BC, slow to fast, 
         "0 / +-1 deg / up to +-10 deg, default config or a smaller step / looser accuracy / fewer iterations; reachability is decided "
         "by running the shot: (i) sight-line launch reaches the horizontal distance, (ii) elevations look+{0..30 deg} bracket the aim "
         "point with a well-conditioned low-arc solution; non-trivial = reachable-with-margin and (|look| > 1 deg or wind or distance > "
-        "900 ft or stored zero != 0); distinct = distinct case dicts")
+        "900 ft or stored zero != 0); distinct = distinct case dicts; histories: calculator used before for another sight line, a far "
+        "failed attempt first, the same Shot object zeroed at the same distance before one of its fields was edited in place")
 ASSUMPTIONS = ["'one integration step of travel' = calc_step + the largest ground advance of one step near the target (measured on a step trace), x1.02",
                "the 'does not fail' clause is asserted only for targets with a bracketed, well-conditioned solution (reachable-with-margin), a subset of the statement's domain",
                "miss measured as target_drop (perpendicular distance from the sight line) of the row at the zero distance"]
